@@ -8,7 +8,6 @@ what={
 "loopvar.shadow-used-after":"for i := ... hides an outer i that is used after the loop: the let of the loop variable is emitted outside the loop's parentheses",
 "compare.nil-map":"m == nil for a nil map compares a null location with slice.nil: false in GooseLang, true in Go",
 "compare.nil-slice-empty":"make([]T, 0) == nil is false in Go, but NewSlice t #0 is slice.nil in GooseLang (true)",
-"const.multi":"const a, b uint64 = 1, 2 silently drops b (no error, no Definition)",
 "const.untyped-in-u32":"an untyped constant sub-expression in a 32-bit context (f(1 << 20), f uint32) is emitted with 64-bit literals: mixed-width operation, stuck",
 "conv.byte":"byte(x) is a no-op: uint64(byte(300)) is 300 in GooseLang, 44 in Go",
 "conv.named-int":"T(x) for a named integer type T is a no-op: no truncation",
